@@ -904,7 +904,7 @@ fn judge(run: &Run, hist: &Hist, i: u64, seed: u64, o: &CaseOut) {
         if want {
             run.count("false_negatives", 1);
             run.violation(
-                &format!("{which}:false-negative:{}", o.exp.kinds_outside.join("+")),
+                &format!("{which}:false-negative:{}", if o.exp.kinds_outside.len() > 2 { "several-kinds".to_string() } else { o.exp.kinds_outside.join("+") }),
                 &format!("crossing outside unsafe (cdc) ({}) but no mismatch_clock_domain in the {which} rendering", o.exp.kinds_outside.join(", ")),
                 replay(which, text, an),
             );
@@ -952,7 +952,8 @@ fn judge(run: &Run, hist: &Hist, i: u64, seed: u64, o: &CaseOut) {
 pub fn main(args: Args) {
     let run = Arc::new(Run::new(
         args.clone(),
-        "exploration",
+        // a replay re-runs one recorded case: not a coverage claim
+        if args.replay.is_some() { "other" } else { "exploration" },
         "CdcLab: one top module with 2-3 explicit clock domains (a clock and 1-2 data inputs per domain) and 4-9 driven signals (outputs, \
          variables, interface-instance members) each driven by one assign / always_comb (nested if-else) / always_ff (own or foreign \
          clock) / instance output (child with implicit, one or two explicit domains); references stray into foreign domains with a \
@@ -970,6 +971,7 @@ pub fn main(args: Args) {
     }
     let hist = Arc::new(Hist::default());
     if let Some(rp) = &args.replay {
+        run.set_extra("explanation", json!("replay of one recorded case against the current tree; no coverage is claimed"));
         let v: Json = serde_json::from_str(&std::fs::read_to_string(rp).expect("replay file")).expect("replay json");
         let seed = v["case"]["seed"].as_u64().unwrap_or(args.seed);
         let i = v["case"]["case_index"].as_u64().expect("case_index");
